@@ -348,6 +348,11 @@ def run(ctx):
                       key=f"R4.6:{where}:buffered-wrapper")
     ctx.floor("R4.6", "buffering wrapper constructions in the package", wrappers, 2)
 
+    # ------------------------------------------------------------------ R4.9 (sibling rule) frames are written when they are produced
+    ctx.import_rule("C03", "R3.3", "R4.9", "a failing write must not leave frames behind that a later write emits: the descriptor handler writes its frame at once (no queue that survives an exception)",
+                    constructs=["RecordStreamWriter.on_new_descriptor"])
+
+
 
 def _fold(prog, module, e):
     try:
